@@ -14,22 +14,19 @@ func TestVerifC03(t *testing.T) {
 	r := ev.Start(t, "C03")
 	defer r.Finish()
 	st := &vwStats{}
-	run := func(name string, retained, depth, devs int) mc.Result {
+	run := func(name string, retained, depth, devs int) mc.Result { // nolint
 		o := vwOpts{
 			prop: "C03", cmds: 3, maxInstalls: ev.Pick(r, 1, 2), maxCrashes: ev.Pick(r, 1, 2), maxOutages: ev.Pick(r, 0, 1), retained: retained,
 			evConflict: true, evSame: true, evTrailing: true, evLocalLost: true, evHedge: r.Thorough(),
 			oC03: true, reportKF: false,
 		}
-		depth, devs = vwDebugBounds(depth, devs)
-		b := vwBounds(o)
-		return mc.Run(r, mc.System{
-			Name: name, New: func() mc.Instance { return newVW(o, st) },
-			MaxDepth: depth, MaxDeviations: devs, Bounds: b,
-			Note: "N=3 voters, Q=2, one channel, commands c1 (1 record), c2 (2 records), c3 (1 record), each in an exact and a conflicting content variant; initial state: node 1 installed under (1,1,1); a path ends (silently, counted) at a transition that matches the known C01 defect KF-C01-1",
-		})
+		return vwRun(r, name, o, st, depth, devs, "N=3 voters, Q=2, one channel, commands c1 (1 record), c2 (2 records), c3 (1 record), each in an exact and a conflicting content variant; initial state: node 1 installed under (1,1,1); a path ends (silently, counted) at a transition that matches the known C01 defect KF-C01-1")
 	}
-	res := run("replication-world/C03-retained1", 1, ev.Pick(r, 5, 6), ev.Pick(r, 1, 2))
-	res2 := run("replication-world/C03-retained2", 2, ev.Pick(r, 4, 5), ev.Pick(r, 2, 2))
+	res := run("replication-world/C03/retained1-deep", 1, ev.Pick(r, 5, 7), ev.Pick(r, 0, 0))
+	res2 := run("replication-world/C03/retained1-mid", 1, ev.Pick(r, 4, 6), ev.Pick(r, 1, 1))
+	res3 := run("replication-world/C03/retained1-faulty", 1, ev.Pick(r, 3, 5), ev.Pick(r, 2, 2))
+	res4 := run("replication-world/C03/retained2", 2, ev.Pick(r, 4, 5), ev.Pick(r, 1, 2))
+	res.States += res3.States + res4.States
 	vwAssumptions(r)
 	vwCounters(r, st)
 	if r.Replay() != nil {
